@@ -182,10 +182,19 @@ macro_rules! impl_conversion_to_float {
                     } else if top_bit < $lb {
                         Err(ConversionError::LossOfPrecision)
                     } else {
-                        match <$t>::encode(
-                            value.0.numerator.try_into().unwrap(),
-                            -(den_bits as i16),
-                        ) {
+                        // an integer may carry trailing zeros that belong to the exponent; after that
+                        // a numerator too wide for the mantissa type cannot be represented
+                        let (num, exp) = if den_bits == 0 {
+                            let zeros = value.0.numerator.trailing_zeros().unwrap();
+                            (value.0.numerator >> zeros, zeros as i16)
+                        } else {
+                            (value.0.numerator, -(den_bits as i16))
+                        };
+                        let num = match num.try_into() {
+                            Ok(n) => n,
+                            Err(_) => return Err(ConversionError::LossOfPrecision),
+                        };
+                        match <$t>::encode(num, exp) {
                             Exact(v) => Ok(v),
                             Inexact(v, _) => {
                                 if v.is_infinite() {
